@@ -72,8 +72,10 @@ const CODE_FILES: [Option<&str>; 7] = [
 ];
 const LEAF_OF_CF: [usize; 7] = [0, 1, 1, 2, 3, 4, 5];
 const LEAVES: [&str; 6] = ["", "lib0.so", "lib1.so", "lib2.dll", "LIB0.SO", "lib0.soaa"];
-const CODE_IDS: [Option<&str>; 5] = [None, Some("AA11"), Some("BB22"), Some("11"), Some("")];
-const DEBUG_FILES: [Option<&str>; 4] = [None, Some("a.pdb"), Some("b.pdb"), Some("A.PDB")];
+// round 5: code id 5 is the breakpad text of debug id 1 and debug file 4 is the text of code file 1 — identities that a key
+// function with a fallback from one component to another (`code_id.or(debug_id)`, `debug_file.unwrap_or(code_file)`) merges
+const CODE_IDS: [Option<&str>; 6] = [None, Some("AA11"), Some("BB22"), Some("11"), Some(""), Some("abcd1234abcd1234abcdabcd12345678a")];
+const DEBUG_FILES: [Option<&str>; 5] = [None, Some("a.pdb"), Some("b.pdb"), Some("A.PDB"), Some("lib0.so")];
 const DEBUG_IDS: [Option<&str>; 4] = [
     None,
     Some("abcd1234-abcd-1234-abcd-abcd12345678-a"),
